@@ -1,5 +1,7 @@
 import N0Verif.Proofs.XPathStore
 import N0Verif.Proofs.XPathHidden
+import N0Verif.Proofs.XPathHiddenSet
+import N0Verif.Proofs.XPathHiddenRow
 /-!
 # C02 — assigning through an xpath to an existing node changes exactly that node
 
@@ -145,5 +147,145 @@ example : ∃ t', setAt exTree [.key ['k']] (.int 7) = some t' ∧
     setItem 40 exTree ['/', '/', 'k', '[', 'l', 'a', 's', 't', '(', ')', ']'] (.int 7) = (t', .ok ()) :=
   C02_set_hidden_list .n0 _ [] .n0 _ ['k'] (.bool true) .last (.int 7) 40 trivial rfl ⟨by simp, by decide, by simp⟩ (by decide) rfl
     (Or.inr rfl) (by decide)
+
+/-- **C02 (hidden list, the index as a step of its own).**  `d['//…P…/[0]'] = v`, `…/[-1]`, `…/[last()]` (any spelling
+`e` of `0` / `-1`) on the single value at ANY plain position `P` (the value of a key, or an element of a list:
+`a/b[0]/[0]`) is the write to the existing node `P`: exactly `setAt t P v`, nothing raised. -/
+theorem C02_set_hidden_own_step (cls : Cls) (kvs : List (Str × Val)) (P : Pos) (old : Val) (e : IdxSp) (v : Val) (fuel : Nat)
+    (hp : PlainPos P) (hne : P ≠ []) (hP : getAt (.dict cls kvs) P = some old) (hs : isList old = false)
+    (he : e.val = 0 ∨ e.val = -1) (hf : fuel ≥ 2 * P.length + 1) :
+    ∃ t', setAt (.dict cls kvs) P v = some t' ∧
+      setItem fuel (.dict cls kvs) (slash ++ renderPos P ++ slash ++ bracket e.text) v = (t', .ok ()) := by
+  obtain ⟨t', ht'⟩ := setAt_isSome P _ old v hP
+  exact ⟨t', ht', setItem_hidden_own_step cls kvs P old e v t' fuel hp hne hP hs he ht' hf⟩
+
+/-- **C02 (hidden list, an element of a list).**  `d['//…q0…[i][0]'] = v` (`[i][-1]`, `[i][last()]`, …) where element
+`i` of the list at `q0` is a single value: exactly that element is replaced (`setAt`), nothing raised. -/
+theorem C02_set_hidden_elem (cls : Cls) (kvs : List (Str × Val)) (q0 : Pos) (i : Nat) (old : Val) (e : IdxSp) (v : Val)
+    (fuel : Nat) (hp : PlainPos (q0 ++ [Seg.idx i])) (hP : getAt (.dict cls kvs) (q0 ++ [Seg.idx i]) = some old)
+    (hs : isList old = false) (he : e.val = 0 ∨ e.val = -1) (hf : fuel ≥ 2 * (q0.length + 1) + 1) :
+    ∃ t', setAt (.dict cls kvs) (q0 ++ [Seg.idx i]) v = some t' ∧
+      setItem fuel (.dict cls kvs) (slash ++ renderPos (q0 ++ [Seg.idx i]) ++ bracket e.text) v = (t', .ok ()) := by
+  obtain ⟨t', ht'⟩ := setAt_isSome (q0 ++ [Seg.idx i]) _ old v hP
+  exact ⟨t', ht', setItem_hidden_elem cls kvs q0 i old e v t' fuel hp hP hs he ht' hf⟩
+
+/-- **C02 (hidden list, the index in the middle of the path).**  `d['//…q…/name[0]/k2/…p2…'] = v` where `name` holds a
+value that is not a list (so: a dict) and `k2/…p2…` is the plain path of an existing node below it: the hidden index
+changes nothing, exactly the node at `q/name/k2/p2` is replaced (`setAt`), nothing raised. -/
+theorem C02_set_hidden_middle (cls : Cls) (kvs : List (Str × Val)) (q : Pos) (kcls : Cls) (nkvs : List (Str × Val))
+    (name : Str) (old : Val) (e : IdxSp) (k2 : Str) (p2 : Pos) (c v : Val) (fuel : Nat)
+    (hp : PlainPos q) (hget : getAt (.dict cls kvs) q = some (.dict kcls nkvs)) (hn : PlainKey name)
+    (hl : lookup name nkvs = some old) (hs : isList old = false) (he : e.val = 0 ∨ e.val = -1)
+    (hp2 : PlainPos (Seg.key k2 :: p2)) (hc : getAt old (Seg.key k2 :: p2) = some c)
+    (hf : fuel ≥ 2 * q.length + 2 * p2.length + 4) :
+    ∃ t', setAt (.dict cls kvs) (q ++ [.key name] ++ Seg.key k2 :: p2) v = some t' ∧
+      setItem fuel (.dict cls kvs)
+        (slash ++ renderPos q ++ slash ++ (name ++ bracket e.text) ++ renderPos (Seg.key k2 :: p2)) v = (t', .ok ()) := by
+  have hP : getAt (.dict cls kvs) (q ++ [Seg.key name] ++ Seg.key k2 :: p2) = some c := by
+    rw [getAt_append, getAt_snoc, hget]; simp [child, hl, hc]
+  obtain ⟨t', ht'⟩ := setAt_isSome _ _ c v hP
+  exact ⟨t', ht', setItem_hidden_middle cls kvs q kcls nkvs name old e k2 p2 c v t' fuel hp hget hn hl hs he hp2 hc ht' hf⟩
+
+/-! Non-vacuity of the three (on `exTree = {a: {b: [1, ['x', None]]}, k: True}`). -/
+/-- `d['//k/[last()]'] = 7` -/
+example : ∃ t', setAt exTree [.key ['k']] (.int 7) = some t' ∧
+    setItem 40 exTree ['/', '/', 'k', '/', '[', 'l', 'a', 's', 't', '(', ')', ']'] (.int 7) = (t', .ok ()) :=
+  C02_set_hidden_own_step .n0 _ [.key ['k']] (.bool true) .last (.int 7) 40 ⟨⟨by simp, by decide, by simp⟩, trivial⟩ (by simp)
+    rfl rfl (Or.inr rfl) (by decide)
+/-- `d['//a/b[0]/[0]'] = 7`: the single value is an element of a list -/
+example : ∃ t', setAt exTree [.key ['a'], .key ['b'], .idx 0] (.int 7) = some t' ∧
+    setItem 40 exTree ['/', '/', 'a', '/', 'b', '[', '0', ']', '/', '[', '0', ']'] (.int 7) = (t', .ok ()) :=
+  C02_set_hidden_own_step .n0 _ [.key ['a'], .key ['b'], .idx 0] (.int 1) (.lit 0) (.int 7) 40
+    ⟨⟨by simp, by decide, by simp⟩, ⟨by simp, by decide, by simp⟩, trivial⟩ (by simp) rfl rfl (Or.inl rfl) (by decide)
+/-- `d['//a/b[0][-1]'] = 7` -/
+example : ∃ t', setAt exTree [.key ['a'], .key ['b'], .idx 0] (.int 7) = some t' ∧
+    setItem 40 exTree ['/', '/', 'a', '/', 'b', '[', '0', ']', '[', '-', '1', ']'] (.int 7) = (t', .ok ()) :=
+  C02_set_hidden_elem .n0 _ [.key ['a'], .key ['b']] 0 (.int 1) (.neg 1) (.int 7) 40
+    ⟨⟨by simp, by decide, by simp⟩, ⟨by simp, by decide, by simp⟩, trivial⟩ rfl rfl (Or.inr rfl) (by decide)
+/-- `d['//a[0]/b[1]'] = 7`: `a` is a dict, `b[1]` the list `['x', None]` below it -/
+example : ∃ t', setAt exTree [.key ['a'], .key ['b'], .idx 1] (.int 7) = some t' ∧
+    setItem 40 exTree ['/', '/', 'a', '[', '0', ']', '/', 'b', '[', '1', ']'] (.int 7) = (t', .ok ()) :=
+  C02_set_hidden_middle .n0 _ [] .n0 _ ['a'] _ (.lit 0) ['b'] [.idx 1] (.list .n0 [.str ['x'], .none]) (.int 7) 40 trivial rfl
+    ⟨by simp, by decide, by simp⟩ rfl rfl (Or.inl rfl) ⟨⟨by simp, by decide, by simp⟩, trivial⟩ rfl (by decide)
+/-- the results are what they should be (evaluated) -/
+example : (setItem 40 exTree ['/', '/', 'a', '[', '0', ']', '/', 'b', '[', '1', ']'] (.int 7)).1
+      = .dict .n0 [(['a'], .dict .plain [(['b'], .list .plain [.int 1, .int 7])]), (['k'], .bool true)] ∧
+    (setItem 40 exTree ['/', '/', 'a', '/', 'b', '[', '0', ']', '/', '[', '0', ']'] (.int 7)).1
+      = .dict .n0 [(['a'], .dict .plain [(['b'], .list .plain [.int 7, .list .n0 [.str ['x'], .none]])]), (['k'], .bool true)] := by
+  decide
+
+/-- **C02 (hidden list, the index as a step of its own in the middle).**  `d['//…P…/[0]/k2/…p2…'] = v` where the node at
+the plain position `P` (under a key or an element of a list) is not a list: exactly the node at `P/k2/p2` is replaced. -/
+theorem C02_set_hidden_middle_own (cls : Cls) (kvs : List (Str × Val)) (P : Pos) (old : Val) (e : IdxSp) (k2 : Str)
+    (p2 : Pos) (c v : Val) (fuel : Nat)
+    (hp : PlainPos P) (hP : getAt (.dict cls kvs) P = some old) (hs : isList old = false)
+    (he : e.val = 0 ∨ e.val = -1) (hp2 : PlainPos (Seg.key k2 :: p2)) (hc : getAt old (Seg.key k2 :: p2) = some c)
+    (hf : fuel ≥ 2 * P.length + 2 * p2.length + 4) :
+    ∃ t', setAt (.dict cls kvs) (P ++ Seg.key k2 :: p2) v = some t' ∧
+      setItem fuel (.dict cls kvs) (slash ++ renderPos P ++ slash ++ bracket e.text ++ renderPos (Seg.key k2 :: p2)) v
+        = (t', .ok ()) := by
+  have hP' : getAt (.dict cls kvs) (P ++ Seg.key k2 :: p2) = some c := by rw [getAt_append, hP]; exact hc
+  obtain ⟨t', ht'⟩ := setAt_isSome _ _ c v hP'
+  exact ⟨t', ht', setItem_hidden_middle_own cls kvs P old e k2 p2 c v t' fuel hp hP hs he hp2 hc ht' hf⟩
+
+/-- **C02 (hidden list, on a list element in the middle).**  `d['//…q0…[i][0]/k2/…p2…'] = v` where element `i` of the list
+at `q0` is not a list (a dict): exactly the node at `q0[i]/k2/p2` is replaced. -/
+theorem C02_set_hidden_middle_elem (cls : Cls) (kvs : List (Str × Val)) (q0 : Pos) (i : Nat) (old : Val) (e : IdxSp)
+    (k2 : Str) (p2 : Pos) (c v : Val) (fuel : Nat)
+    (hp : PlainPos (q0 ++ [Seg.idx i])) (hP : getAt (.dict cls kvs) (q0 ++ [Seg.idx i]) = some old)
+    (hs : isList old = false) (he : e.val = 0 ∨ e.val = -1) (hp2 : PlainPos (Seg.key k2 :: p2))
+    (hc : getAt old (Seg.key k2 :: p2) = some c) (hf : fuel ≥ 2 * (q0.length + 1) + 2 * p2.length + 4) :
+    ∃ t', setAt (.dict cls kvs) (q0 ++ [Seg.idx i] ++ Seg.key k2 :: p2) v = some t' ∧
+      setItem fuel (.dict cls kvs)
+        (slash ++ renderPos (q0 ++ [Seg.idx i]) ++ bracket e.text ++ renderPos (Seg.key k2 :: p2)) v = (t', .ok ()) := by
+  have hP' : getAt (.dict cls kvs) (q0 ++ [Seg.idx i] ++ Seg.key k2 :: p2) = some c := by rw [getAt_append, hP]; exact hc
+  obtain ⟨t', ht'⟩ := setAt_isSome _ _ c v hP'
+  exact ⟨t', ht', setItem_hidden_middle_elem cls kvs q0 i old e k2 p2 c v t' fuel hp hP hs he hp2 hc ht' hf⟩
+
+/-- `{h: [1, {p: 5}]}` -/
+def exTree2 : Val := .dict .n0 [(['h'], .list .n0 [.int 1, .dict .n0 [(['p'], .int 5)]])]
+/-- `d['//a/[-1]/b[1]'] = 7` on `exTree` -/
+example : ∃ t', setAt exTree [.key ['a'], .key ['b'], .idx 1] (.int 7) = some t' ∧
+    setItem 40 exTree ['/', '/', 'a', '/', '[', '-', '1', ']', '/', 'b', '[', '1', ']'] (.int 7) = (t', .ok ()) :=
+  C02_set_hidden_middle_own .n0 _ [.key ['a']] _ (.neg 1) ['b'] [.idx 1] (.list .n0 [.str ['x'], .none]) (.int 7) 40
+    ⟨⟨by simp, by decide, by simp⟩, trivial⟩ rfl rfl (Or.inr rfl) ⟨⟨by simp, by decide, by simp⟩, trivial⟩ rfl (by decide)
+/-- `d['//h[1][0]/p'] = 7` on `{h: [1, {p: 5}]}` -/
+example : ∃ t', setAt exTree2 [.key ['h'], .idx 1, .key ['p']] (.int 7) = some t' ∧
+    setItem 40 exTree2 ['/', '/', 'h', '[', '1', ']', '[', '0', ']', '/', 'p'] (.int 7) = (t', .ok ()) :=
+  C02_set_hidden_middle_elem .n0 _ [.key ['h']] 1 _ (.lit 0) ['p'] [] (.int 5) (.int 7) 40
+    ⟨⟨by simp, by decide, by simp⟩, trivial⟩ rfl rfl (Or.inl rfl) ⟨⟨by simp, by decide, by simp⟩, trivial⟩ rfl (by decide)
+example : (setItem 40 exTree2 ['/', '/', 'h', '[', '1', ']', '[', '0', ']', '/', 'p'] (.int 7)).1
+    = .dict .n0 [(['h'], .list .n0 [.int 1, .dict .n0 [(['p'], .int 7)]])] := by decide
+
+/-- **C02 (hidden list, several hidden indexes in a row).**  Item 0 of the hidden list is the value itself, which is again
+the list of this one item: `d['//…P…[0][-1][last()]'] = v` — any number ≥ 1 of indexes, each any spelling of `0` / `-1` —
+on the single value at the plain position `P` (the value of a key: `a[0][0]`; an element of a list: `h[1][0][0]`) is the
+write to the existing node `P`: exactly `setAt t P v`, nothing raised. -/
+theorem C02_set_hidden_row (cls : Cls) (kvs : List (Str × Val)) (P : Pos) (old : Val) (init : List IdxSp) (l : IdxSp)
+    (v : Val) (fuel : Nat)
+    (hp : PlainPos P) (hne : P ≠ []) (hP : getAt (.dict cls kvs) P = some old) (hs : isList old = false)
+    (hgi : ∀ e ∈ init, e.val = 0 ∨ e.val = -1) (hg : l.val = 0 ∨ l.val = -1)
+    (hf : fuel ≥ 2 * P.length + 3 + init.length) :
+    ∃ t', setAt (.dict cls kvs) P v = some t' ∧
+      setItem fuel (.dict cls kvs) (slash ++ renderPos P ++ (init ++ [l]).flatMap (fun e => bracket e.text)) v
+        = (t', .ok ()) := by
+  obtain ⟨t', ht'⟩ := setAt_isSome P _ old v hP
+  exact ⟨t', ht', setItem_hidden_row cls kvs P old init l v t' fuel hp hne hP hs hgi hg ht' hf⟩
+
+/-- `d['//k[0][-1][last()]'] = 7` on `exTree` -/
+example : ∃ t', setAt exTree [.key ['k']] (.int 7) = some t' ∧
+    setItem 40 exTree ['/', '/', 'k', '[', '0', ']', '[', '-', '1', ']', '[', 'l', 'a', 's', 't', '(', ')', ']'] (.int 7)
+      = (t', .ok ()) :=
+  C02_set_hidden_row .n0 _ [.key ['k']] (.bool true) [.lit 0, .neg 1] .last (.int 7) 40
+    ⟨⟨by simp, by decide, by simp⟩, trivial⟩ (by simp) rfl rfl (by decide) (Or.inr rfl) (by decide)
+/-- `d['//a/b[0][0][0]'] = 7` on `exTree`: two hidden indexes on an element of a list -/
+example : ∃ t', setAt exTree [.key ['a'], .key ['b'], .idx 0] (.int 7) = some t' ∧
+    setItem 40 exTree ['/', '/', 'a', '/', 'b', '[', '0', ']', '[', '0', ']', '[', '0', ']'] (.int 7) = (t', .ok ()) :=
+  C02_set_hidden_row .n0 _ [.key ['a'], .key ['b'], .idx 0] (.int 1) [.lit 0] (.lit 0) (.int 7) 40
+    ⟨⟨by simp, by decide, by simp⟩, ⟨by simp, by decide, by simp⟩, trivial⟩ (by simp) rfl rfl (by decide) (Or.inl rfl)
+    (by decide)
+example : (setItem 40 exTree ['/', '/', 'k', '[', '0', ']', '[', '-', '1', ']', '[', 'l', 'a', 's', 't', '(', ')', ']'] (.int 7)).1
+    = .dict .n0 [(['a'], .dict .plain [(['b'], .list .plain [.int 1, .list .n0 [.str ['x'], .none]])]), (['k'], .int 7)] := by
+  decide
 
 end N0.C02
